@@ -344,9 +344,15 @@ def run_cycle(ctx, spec, text):
     kind, x = H.run_load(load, text)
     case = {'kind': 'cycle', 'spec': spec, 'text': text}
     if kind == 'ok':
-        ctx.violation('C18 self-referential-alias accepted',
-                      'document %r loaded to %s' % (text, short(
-                          V.vdigest(x))), case)
+        if contains_itself(x):
+            ctx.violation('C18 self-referential-alias accepted',
+                          'document %r loaded to a value that contains '
+                          'itself: %s' % (text, short(V.vdigest(x))), case)
+        else:
+            # the alias that closes the cycle was removed by a savorizer
+            # (e.g. a discriminator-removing one) before anything descended
+            # into it; the value is finite - counted, not judged
+            ctx.count('cycle_loads_finite_value')
     elif not isinstance(x, H.ALLOWED):
         ctx.violation(
             'C18 self-referential-alias %s %s' % (type(x).__name__,
@@ -354,6 +360,26 @@ def run_cycle(ctx, spec, text):
             'document %r raised %s: %s' % (text, type(x).__name__,
                                           str(x)[:200]), case)
     ctx.case(case, True)
+
+
+def contains_itself(v, _path=None, _depth=0):
+    """Is the object graph below v cyclic (or absurdly deep)?"""
+    if _depth > 150:
+        return True
+    args = getattr(v, '_v_args', None)
+    if args is not None and not isinstance(v, type):
+        kids = list(args.values())
+    elif isinstance(v, dict):
+        kids = list(v.keys()) + list(v.values())
+    elif isinstance(v, (list, tuple)):
+        kids = list(v)
+    else:
+        return False
+    _path = _path or ()
+    if id(v) in _path:
+        return True
+    _path = _path + (id(v),)
+    return any(contains_itself(k, _path, _depth + 1) for k in kids)
 
 
 # hand-shaped families: one shared node at positions of different types
@@ -459,6 +485,13 @@ def shard(ctx):
             if rng.random() < 0.5:
                 msp, what = D.mutate(nspec, rng, cn, kp)
                 run_pair(ctx, spec, msp, rng.getrandbits(32), style)
+            if rng.random() < 0.5:
+                csp = D.make_cycle(nspec, rng)
+                if csp is not None:
+                    try:
+                        run_cycle(ctx, spec, D.render(csp, style))
+                    except (ValueError, RecursionError):
+                        pass
         if rng.random() < 0.5:
             run_cycle(ctx, spec, rng.choice(D.CYCLES))
     for k, (name, spec, nspec) in enumerate(families()):
